@@ -224,3 +224,30 @@ Proof.
   destruct (match p with [] => [] | b0 :: rest => if beqb b0 slash then rest else p end) as [|x t]; [discriminate|].
   destruct (trim_space _) as [|y l]; [discriminate|]. intros H. inversion H. discriminate.
 Qed.
+
+(* a virtual-hosted request addresses the bucket named by its Host: for a bucket label without '/' and
+   without surrounding blanks, and a request path that is empty or starts with '/', the rewritten path
+   resolves to exactly that bucket *)
+Lemma bucket_from_path_vhost b p :
+  b <> [] -> ~ In slash b -> trim_space b = b ->
+  (p = [] \/ exists rest, p = slash :: rest) ->
+  bucket_from_path (vhost_path b p) = Some b.
+Proof.
+  intros NE NS TB HP.
+  assert (G1 : bucket_from_path (slash :: b) = Some b).
+  { unfold bucket_from_path. replace (beqb slash slash) with true by (symmetry; apply beqb_eq; reflexivity).
+    destruct b as [|x b']; [contradiction|].
+    destruct (split_first slash (x :: b')) as [[pre suf]|] eqn:S.
+    - apply split_first_Some in S. destruct S as [S _]. exfalso. apply NS. rewrite S. apply in_or_app. right. left. reflexivity.
+    - rewrite TB. reflexivity. }
+  assert (G2 : forall rest, bucket_from_path (slash :: b ++ slash :: rest) = Some b).
+  { intros rest. unfold bucket_from_path.
+    replace (beqb slash slash) with true by (symmetry; apply beqb_eq; reflexivity).
+    destruct (b ++ slash :: rest) as [|y t] eqn:E; [destruct b; discriminate E|]. rewrite <- E.
+    assert (S : split_first slash (b ++ slash :: rest) = Some (b, rest)) by (apply split_first_Some; split; [reflexivity|exact NS]).
+    rewrite S, TB. destruct b; [contradiction|reflexivity]. }
+  destruct HP as [-> | [rest ->]]; [exact G1|].
+  unfold vhost_path. destruct rest as [|r0 rest'].
+  - replace (beqb slash slash) with true by (symmetry; apply beqb_eq; reflexivity). exact G1.
+  - apply G2.
+Qed.
